@@ -92,6 +92,11 @@ CHECKS = {
    "Chunk lists for ChunkReader are ordered and non-overlapping; read-ahead schedules are sampled; every replay runs under a watchdog.",
    "property-based testing (rapid): reference model (record list / flat byte array) over generated files and chunk lists",
    "DESIGN.md 3/C13"),
+ "C10": ("fault_enumeration",
+   "Crash-point and corruption enumeration over generated streams: for every generated closed BGZF stream (2..5 blocks) and BAM stream (records spanning blocks) EVERY truncation length and, at EVERY byte position, several substituted values (all 255 for a share of small streams in the thorough tier; structure-aware extra values for BSIZE) are read back at rd 1 and 3; oracle = data/records returned are a prefix of the original, a clean end only at a block (and record) boundary, HasEOF false there, and a substituted stream either fails or yields exactly the original.",
+   "Exhaustive per stream for truncations; substitution values are sampled except where noted; the streams themselves are sampled.",
+   "fault enumeration (all cut points, all positions x several values) over rapid-generated streams; oracle = original data/records",
+   "DESIGN.md 3/C10"),
 }
 
 NOT_YET = {}
